@@ -167,53 +167,37 @@ def standardize_f32(rows):
     return a
 
 
-def knn_counts(arr, dim_x, dim_y, k, tol=4e-10):
-    """Kraskov (algorithm 1) / Frenzel-Pompe neighbour counts in the maximum
-    norm by brute force.  arr: (dim, M) standardised float32 rows
-    [X.., Y.., Z..].  For every sample the distance eps to its k-th nearest
-    neighbour in the joint space is determined; k_xz, k_yz, k_z count the
-    samples (including the reference sample) strictly inside eps in the
-    respective subspaces.  `decisive` is False if any competing distance
-    lies within `tol` of eps (then the library's 1e-10 tie-breaking noise
-    decides and the counts are not a function of the data)."""
+def knn_counts(arr, k, tol=4e-10):
+    """Kraskov (algorithm 1) neighbour counts in the maximum norm by brute
+    force.  arr: (2, M) standardised float32 rows [X, Y].  For every sample
+    the distance eps to its k-th nearest neighbour in the joint space is
+    determined; k_x, k_y count the samples (including the reference sample)
+    strictly inside eps in the marginal spaces.  Distances are differences
+    of single-precision numbers evaluated in single precision (FIELD).
+    `decisive` is False if any competing distance lies within `tol` of eps
+    (then the library's 1e-10 tie-breaking noise decides and the counts are
+    not a function of the data)."""
     arr = np.asarray(arr, dtype=np.float32)
-    dim, M = arr.shape
+    M = arr.shape[1]
     d = np.abs(arr[:, :, None] - arr[:, None, :]).astype(np.float64)
-    dx = d[:dim_x].max(axis=0)
-    dy = d[dim_x:dim_x + dim_y].max(axis=0)
-    if dim > dim_x + dim_y:
-        dz = d[dim_x + dim_y:].max(axis=0)
-    else:
-        dz = np.zeros((M, M))
-    dj = np.maximum(np.maximum(dx, dy), dz)
+    dx, dy = d[0], d[1]
+    dj = np.maximum(dx, dy)
     eps = np.sort(dj, axis=1)[:, k].reshape(M, 1)
-    decisive = True
-    lo_j = (dj < eps - tol).sum(axis=1)
-    hi_j = (dj <= eps + tol).sum(axis=1)
-    if not (np.all(lo_j == k) and np.all(hi_j == k + 1)):
-        decisive = False
+    decisive = bool(np.all((dj < eps - tol).sum(axis=1) == k) and
+                    np.all((dj <= eps + tol).sum(axis=1) == k + 1) and
+                    np.all(eps > 10 * tol))
     res = []
     amb = np.zeros(M, dtype=int)
-    inz_lo = dz < eps - tol
-    inz_hi = dz <= eps + tol
     for dd in (dx, dy):
-        lo = (inz_lo & (dd < eps - tol)).sum(axis=1)
-        hi = (inz_hi & (dd <= eps + tol)).sum(axis=1)
+        lo = (dd < eps - tol).sum(axis=1)
+        hi = (dd <= eps + tol).sum(axis=1)
         amb += hi - lo
         res.append(lo)
-    kz_lo = inz_lo.sum(axis=1)
-    kz_hi = inz_hi.sum(axis=1)
-    # the k-th neighbour itself sits exactly on eps in at least one
-    # coordinate block; any further ambiguity makes the case non-decisive
-    if dim > dim_x + dim_y:
-        # eps may be attained in the Z block: then x/y counts near eps are
-        # not separated from the z condition -> demand full separation
-        if np.any(kz_hi - kz_lo > 1) or np.any(amb + (kz_hi - kz_lo) != 1):
-            decisive = False
-    else:
-        if np.any(amb != 1):
-            decisive = False
-    return res[0], res[1], kz_lo, decisive
+    # the k-th neighbour itself sits exactly on eps in one coordinate; any
+    # further distance near eps makes the case non-decisive
+    if np.any(amb != 1):
+        decisive = False
+    return res[0], res[1], np.full(M, M), decisive
 
 
 def mi_knn_pair(x, y, k):
@@ -223,7 +207,7 @@ def mi_knn_pair(x, y, k):
     arr = standardize_f32([x, y])
     if not np.all(np.isfinite(arr)):
         return NAN, False
-    kx, ky, kz, dec = knn_counts(arr, 1, 1, k)
+    kx, ky, kz, dec = knn_counts(arr, k)
     val = float(digamma(k) + (-digamma(kx) - digamma(ky)
                               + digamma(kz)).mean())
     return val, dec
@@ -372,8 +356,10 @@ def climate_hist_mi(anom, n_bins=32):
     whose bin differs from a float64 evaluation (diagnostic only)."""
     a = normalize_columns(anom)
     a32 = a.T.astype(np.float32)
-    rmin = float(a32.min())
-    rmax = float(a32.max())
+    # range and scaling are formed in double precision from the normalised
+    # anomalies and handed to the kernel as single-precision numbers
+    rmin = float(a.min())
+    rmax = float(a.max())
     if not rmax > rmin:
         return None, 0
     sc = np.float32(1.0 / (rmax - rmin))
@@ -392,7 +378,7 @@ def test_hist_mi(orig, surr, n_bins):
     """Surrogates.test_mutual_information: common range over both arrays
     (double precision), n_bins equal bins, entry (i,j) = MI(original i,
     surrogate j).  Returns (mi, margin): margin = smallest distance (in bin
-    units) of an interior sample from a bin boundary."""
+    units) of a sample from an interior bin boundary."""
     orig = np.asarray(orig, dtype=np.float64)
     surr = np.asarray(surr, dtype=np.float64)
     N, M = orig.shape
@@ -404,9 +390,10 @@ def test_hist_mi(orig, surr, n_bins):
     def symb(a):
         r = (a - rmin) / (rmax - rmin) * n_bins
         s = np.where(r < n_bins, np.floor(r), n_bins - 1).astype(np.int64)
-        frac = np.abs(r - np.round(r))
-        interior = (a > rmin) & (a < rmax)
-        m = float(frac[interior].min()) if interior.any() else 1.0
+        # distance to the nearest *interior* bin boundary 1..n_bins-1 (both
+        # sides of the outer boundaries 0 and n_bins map to the same bin)
+        nb = np.clip(np.round(r), 1, max(1, n_bins - 1))
+        m = float(np.abs(r - nb).min()) if n_bins > 1 else 1.0
         return s, m
     so, mo = symb(orig)
     ss, ms = symb(surr)
